@@ -68,9 +68,10 @@ import sys
 PROP = "C12"
 RULE = ("cases = (a) all unordered pairs of a fixed list of atoms (builtin scalars and tiny containers, numpy scalars/arrays, "
         "pandas objects, dataclasses, partials, callables); (b) batches of plain-data descriptions tokenized in 3 fresh "
-        "interpreters (hash seeds 0, 1, derived random); (c) seeded pairs (v, w) from 23 families: a generated value and one "
+        "interpreters (hash seeds 0, 1, derived random); (c) seeded pairs (v, w) from 24 families: a generated value and one "
         "mutation of it (element, dtype, shape, name, index, class, field, default, closure, constant ...), adversarial pairs "
-        "(same buffer bytes in another memory order/shape/dtype, object arrays and pandas carriers whose joined strings "
+        "(same buffer bytes in another memory order/shape/dtype incl. structured/void/record dtypes differing in field names, "
+        "field types, grouping, nesting, titles, offsets, units, byte order, object arrays and pandas carriers whose joined strings "
         "coincide, frames with the same blocks under another column assignment, memmaps, large arrays differing in the "
         "middle) and equal values in another insertion order; every value also gets the determinism checks; "
         "non-trivial = pair whose members the oracle calls observably different, or determinism checks on a non-scalar "
@@ -144,6 +145,14 @@ PENDING = {
         "a set of frozensets and the same value rebuilt (NaN element: identity hash) get different tokens",
     "nondeterminism:rebuild-equal-value:frozenset-element-is-unordered-container":
         "a frozenset of frozensets and the same value rebuilt (NaN element: identity hash) get different tokens",
+    # findings_proposed/C12.md section 12: the bytes between the fields of a padded structured dtype are hashed,
+    # copies leave them uninitialised
+    "nondeterminism:deepcopy:padded-struct-dtype":
+        "an array of a structured dtype with padding (offsets/itemsize or align=True) and its deep copy get different tokens",
+    "nondeterminism:pickle-roundtrip:padded-struct-dtype":
+        "an array of a structured dtype with padding and its pickle round trip get different tokens",
+    "nondeterminism:rebuild-equal-value:padded-struct-dtype":
+        "two arrays of a padded structured dtype with equal fields (other padding bytes) get different tokens",
 }
 
 XPROC_SEEDS = ("0", "1", "random")
